@@ -322,9 +322,11 @@ def register():
             cmd = " ".join(command)
             self.world.calls.append((self.deployment_name, location.name, cmd[:12]))
             if cmd.startswith("find -L "):
+                # `find -L <quoted paths> -type f -exec ls -ln {} \+ | awk ...`: the paths are shell words (the
+                # quoting style is the repository's business), so they are read back with a shell-word parser
                 head = cmd.split(" -type f", 1)[0]
                 total = 0
-                for p in re.findall(r'"([^"]*)"', head):
+                for p in shlex.split(head)[2:]:
                     total += self.world.usage.get(posixpath.basename(p), 0)
                 return f"{total}\n", 0
             if command[:2] == ["test", "-e"]:
